@@ -95,7 +95,7 @@ CHECKS = {
                "As C03 with a delete/update/merge_insert mix over overlapping rows; oracle: no row image modified by two committed transactions, no resurrected row.",
                required_probes=["overlapped", "txn-committed"]),
     "C05": chk([e1("seq", 1)], SEQ_RULE, "Seeded histories; Dataset::validate plus manifest invariants after every commit."),
-    "C06": chk([e1("seq", 1)], SEQ_RULE, "Seeded histories; every old version re-read by a fresh party after later steps must equal its snapshot; disk-level monitor that no referenced object changes bytes."),
+    "C06": chk([e1("seq", 2), e1("maint", 1)], SEQ_RULE, "Seeded histories; every old version re-read by a fresh party after later steps must equal its snapshot; disk-level monitor that no referenced object changes bytes. Second batch: histories with cleanup under random policies, tags and clock jumps; every version that cleanup retains (including tagged old versions) must still read back as its snapshot."),
     "C07": chk([e1("seq", 2), e1("conc", 1, stable=1)], SEQ_RULE, "Seeded histories with restores; restored version equals the model of the old version; row ids never re-issued. Second batch: restores racing with appends/updates/merges in concurrent rounds on stable-row-id tables, followed by further writes; serial-replay and row-identity oracles."),
     "C08": chk([e1("maint", 2), e1("maint", 1, race=1)],
                "one run = a seeded history with simulated wall-clock jumps (hours to 8 days), tags, writers crashed at a chosen storage call (orphan files) and "
